@@ -93,6 +93,19 @@ pub fn run(rec: &mut Recorder, w: &mut World, tier: &str, seed: u64) {
         if s1 != "ok" || l1 != "ok" || before != after || dec_before != dec_after {
             rec.fail("save-load-not-identity", format!("[{}] save -> {}, load -> {}: {} became {} (decisions {} -> {})", kind, s1, l1, before, after, dec_before, dec_after));
         }
+        // a second save over the now non-empty storage: after emptying the policy in memory (auto-save is off, the storage
+        // still holds the rules), or after taking away one policy type's rules — what is stored afterwards is what is held
+        if rng.chance(1, 2) {
+            let how = if rng.chance(1, 2) { rec.exec(w, "e.clear"); "clear_policy" } else { rec.exec(w, &MOp::RmF("p".into(), "p".into(), 2, sv(&["read"])).line()); rec.exec(w, &MOp::RmF("p".into(), "p".into(), 2, sv(&["a,b"])).line()); "remove every p rule" };
+            let before2 = rec.exec(w, "e.pol");
+            let s2 = rec.exec(w, "e.save");
+            let l2 = rec.exec(w, "e.load");
+            let after2 = rec.exec(w, "e.pol");
+            if s2 != "ok" || l2 != "ok" || before2 != after2 {
+                rec.fail("save-load-not-identity", format!("[{}] after {} with auto-save off: save -> {}, load -> {}: {} became {}", kind, how, s2, l2, before2, after2));
+            }
+            rec.count(&format!("roundtrip-second-save:{}", if before2 == "- -" { "empty-policy" } else { "smaller-policy" }));
+        }
         rec.count(&format!("roundtrip:{}", kind));
         rec.nontrivial_case(&format!("b|{}|{}", kind, descr.join("|")));
         if ri < 2 { rec.sample(format!("round trip {}: {}", kind, descr.join(" ; "))); }
